@@ -116,4 +116,31 @@ theorem C06_pocket_prefix (short : Bool) (street p n : Nat) (hs : boardStreet st
   rw [unfold_take _ n ((handsOfHand short (nObserved street) p).length + 1), key]
   rfl
 
+theorem unfoldAt_eq {σ α : Type} (step : σ → Option (α × σ)) :
+    ∀ n d s, unfoldAt step n s = (unfold step (n + 1 + d) s)[n]? := by
+  intro n
+  induction n with
+  | zero =>
+    intro d s
+    have e : 0 + 1 + d = d + 1 := by omega
+    rw [e]; simp only [unfoldAt, unfold]
+    cases step s with
+    | none => rfl
+    | some p => obtain ⟨a, s'⟩ := p; rfl
+  | succ n ih =>
+    intro d s
+    have e : n + 1 + 1 + d = (n + 1 + d) + 1 := by omega
+    rw [e]; simp only [unfoldAt, unfold]
+    cases step s with
+    | none => rfl
+    | some p => obtain ⟨a, s'⟩ := p; simp only [List.getElem?_cons_succ]; exact ih d s'
+
+/-- **C06_observation_at**: what the driver's `obsnth` op prints — the model of "consume `i` items by
+whatever entry point, then `next()`" — is item `i` of the observation list -/
+theorem C06_observation_at (short : Bool) (street i : Nat) (hi : i < OBS_FUEL) :
+    observationAt short street i = (Hands.observations short street)[i]? := by
+  obtain ⟨d, hd⟩ := Nat.exists_eq_add_of_le (show i + 1 ≤ OBS_FUEL from hi)
+  unfold observationAt Hands.observations
+  rw [hd]; exact unfoldAt_eq _ i d _
+
 end RP.C06
